@@ -1089,6 +1089,12 @@ fn main() {
             for e in &pes {
                 writeln!(out, "parse {} = {}", perr(e), e).unwrap();
             }
+            // Display of a PURL under formatter flags (the flags are ignored: the same text in every feature set)
+            for s in ["pkg:npm/a@1", "pkg:maven/org.example/lib@2.0?type=jar#src/main", "pkg:cargo/purl@0.1.5"] {
+                if let Ok(p) = GenericPurl::<String>::from_str(s) {
+                    writeln!(out, "flags {} = [{:>16}] [{:.9}] [{:30}] [{:#}]", s, p, p, p, p).unwrap();
+                }
+            }
             #[cfg(feature = "pt")]
             {
                 let mut ks = vec![PackageError::UnsupportedType, PackageError::Parse(ParseError::InvalidEscape)];
